@@ -169,7 +169,7 @@ impl WorldReactor for W2
 
 impl EntityWorldReactor for EW1
 {
-    type Triggers = (EntityMutationTrigger<C1>, EntityEventTrigger<E1>);
+    type Triggers = (EntityMutationTrigger<C1>, EntityEventTrigger<E1>, EntityRemovalTrigger<C1>);
     type Local = u32;
     fn reactor(self) -> SystemCommandCallback
     {
